@@ -13,4 +13,8 @@ OBLIGATIONS = [
     dict(EXT, name='F1.resultForOutput', noinline=['ExternalCommand18getResultForOutput'], expect_functions=['ExternalCommand18getResultForOutput'], params_quick=[{'VF_CASE': 1, 'VF_K': k} for k in (1, 2)]),
     dict(EXT, name='F2.provideValue', noinline=['ExternalCommand12provideValue'], expect_functions=['ExternalCommand12provideValue'], params_quick=[{'VF_CASE': 2, 'VF_K': k} for k in (1, 2)]),
     dict(EXT, name='F4.isResultValid', noinline=['ExternalCommand13isResultValid'], expect_functions=['ExternalCommand13isResultValid'], params_quick=[{'VF_CASE': 0, 'VF_K': k} for k in (1, 2)]),
+    dict(EXT, name='F5.execute-decision', noinline=['ExternalCommand7executeE', 'ExternalCommand17providePriorValue'], expect_functions=['ExternalCommand7executeE'],
+         stub_virtual=[x for x in EXT['stub_virtual'] if not x.startswith('ExternalCommand(')] + ['ExternalCommand(5start|18configure|15configure)'],
+         stubs=EXT['stubs'] + ['^_ZN4llvm3sys4path11parent_pathENS_9StringRefENS1_5StyleE$=stub_parent_path', 'BuildSystem11getDelegateEv$=stub_getDelegate'],
+         assert_external=EXT['assert_external'] + ['report_fatal_error', 'BuildKey', 'QueueJob'], params_quick=[{'VF_CASE': 4, 'VF_K': k, 'VF_PK': pk} for k in (1, 2) for pk in (0, 1, 2, 3, 4, 5)]),
 ]
